@@ -483,6 +483,47 @@ func (e *detExec) Do(line string) string {
 		}
 	}()
 
+	// 7. the value tables are sorted by index alone, which leans on unique indexes: a value that moved
+	//    to another index keeps that index taken — a newcomer with the same index must be refused;
+	//    where it is not, two values tie and the repeated exports are compared
+	func() {
+		defer func() {
+			if p := recover(); p != nil {
+				e.add("c15-unique-key-lost:panic", sprintf("%s: %v", ctx, p))
+			}
+		}()
+		for ei, en := range g.enums {
+			vals := en.Values()
+			if len(vals) < 2 {
+				continue
+			}
+			taken := map[int]bool{}
+			for _, v := range vals {
+				taken[v.Index()] = true
+			}
+			mover := vals[0] // not the highest one: the width of the enum stays what it is
+			target := -1
+			for k := 0; k < vals[len(vals)-1].Index(); k++ {
+				if !taken[k] {
+					target = k
+					break
+				}
+			}
+			if target < 0 || mover.UpdateIndex(target) != nil {
+				continue
+			}
+			nv := acmelib.NewSignalEnumValue(sprintf("zz_dup_%d", ei), target)
+			if en.AddValue(nv) == nil {
+				e.add("c15-unique-key-lost", sprintf("%s: enum %q: value %q was moved to index %d, and a new value with index %d was accepted as well", ctx, en.Name(), mover.Name(), target, target))
+				ref4 := detExport(g.net)
+				for i := 1; i < 12; i++ {
+					e.compare("c15-nondeterministic:", sprintf("%s with two values of enum %q at index %d, run %d vs run 0", ctx, en.Name(), target, i), ref4, detExport(g.net), seen)
+				}
+				return
+			}
+		}
+	}()
+
 	if len(seen) > 0 || ref.err != "" {
 		keys := make([]string, 0, len(seen))
 		for k := range seen {
